@@ -53,11 +53,12 @@ PROPS = {
                       "(fixed form, option on); the three sentinel patterns enumerated against the column rules",
                 trusted=TRUSTED,
                 explanation="[P] R11, R7 placement; [E] R12 patterns; free-form placement inside get_source_item not yet under contract"),
-    "C16": dict(level="other", enum=[("enum_block_table.py", ["F12.scoping", "F12.table#start", "F12.table#flags", "F12.table#labelled"]), ("enum_frame.py", ["frame.scope_calls"])],
+    "C16": dict(level="other", enum=[("enum_block_table.py", ["F12.scoping", "F12.table#start", "F12.table#flags", "F12.table#labelled"]), ("enum_frame.py", ["frame.scope_calls"]), "bounded_scopes.py"],
+                witnesses=["c16_block_inside_nonblock_do_gets_two_tables", "c16_derived_type_declaration_does_not_shadow"],
                 claim="symbol-table operations proved (enter/exit/remove/lookup of tables over the ghost stack), scope entry in BlockBase.match "
                       "proved balanced; the scoping statements are exactly the six of the property (enumerated)",
                 trusted=TRUSTED,
-                explanation="[P] T1-T8, U8a; [E] scoping class set, scope call sites; intrinsic resolution (F8/F9) not yet under contract"),
+                explanation="[P] T1-T8 (incl. SymbolTable.lookup, add_use_symbols), U8a, F9 Intrinsic_Function_Reference.match; [E] scoping class set, scope call sites; [B] generated scope trees (bounded_scopes.py)"),
     "C17": dict(level="other", enum=["enum_registries.py --only C17"],
                 claim="registry inclusion f2003 within f2008 enumerated on the real ParserFactory output; 2008-only rules absent from the 2003 "
                       "registry; program-level refinement compared on a statement corpus (differences: known findings)",
